@@ -493,7 +493,11 @@ func (s *Session) hostInfoFromMap(row map[string]interface{}, host *HostInfo) (*
 			if !ok {
 				return nil, fmt.Errorf(assertErrorMsg, "host_id")
 			}
-			host.hostId = hostId.String()
+			if hostId != (UUID{}) {
+				// a null host_id scans as the zero UUID: leave the id empty so that
+				// the row is skipped as an invalid peer
+				host.hostId = hostId.String()
+			}
 		case "release_version":
 			version, ok := value.(string)
 			if !ok {
